@@ -91,6 +91,11 @@ def run_property(prop, cases, classify=None, technique="", functions=None, bound
     if flt:
         cases = [c for c in cases if flt in c.cid]
     build_s = E.build_driver()
+    from . import selftest
+    st_n, st_bad = selftest.run(1500, seed)
+    if st_bad:
+        sys.stderr.write("INCONCLUSIVE: rewriting front end fails its self-test: %s\n" % st_bad[:3])
+        return 2
     results, wall = E.run_cases(cases, jobs=jobs, timeout_s=timeout_s, progress=500, solver_kind=solver_kind)
     by_status = collections.Counter(r["status"] for r in results)
     os.makedirs(os.path.join(VERIF, "work"), exist_ok=True)
